@@ -12,7 +12,7 @@ open Node Raft Raft.CC RaftProps.C02 RaftProps.C05
 variable {cfg : JointConfig} {c0 : Nat} {h : List Sys}
 
 /-- everything the node-level layers say about one `call` / `deliver` step of the history -/
-theorem call_facts (H : Hyp2 cfg c0 h) {n : Nat} {a : Sys} {i : Nat} {st st' : NState}
+theorem call_facts (H : Hyp2w cfg c0 h) {n : Nat} {a : Sys} {i : Nat} {st st' : NState}
     {rnd : Option Nat} {op : NodeOp} {res : OpRes}
     (ha : h[n]? = some a) (hi : a.node i = some st)
     (hop : appOp op = true ∨ ∃ m, op = .step m ∧ m ∈ a.net ∧ m.to = i)
@@ -69,7 +69,7 @@ def HbGen (h : List Sys) (n i : Nat) (x : Message) : Prop :=
     (x.commit = 0 ∨ Anet s.net x.to x.term x.commit)
 
 /-- **provenance of `MsgAppend`s** -/
-theorem append_prov (H : Hyp2 cfg c0 h) : ∀ (n : Nat) (s : Sys), h[n]? = some s →
+theorem append_prov (H : Hyp2w cfg c0 h) : ∀ (n : Nat) (s : Sys), h[n]? = some s →
     (∀ i st, s.node i = some st → ∀ x ∈ st.raft.msgs, x.msgType = .msgAppend →
       Gen (AppGen h) n i x) ∧
     (∀ x ∈ s.net, x.msgType = .msgAppend → ∃ i, Gen (AppGen h) n i x) := by
@@ -85,7 +85,7 @@ theorem append_prov (H : Hyp2 cfg c0 h) : ∀ (n : Nat) (s : Sys), h[n]? = some 
         (c.app hty).2, d⟩
 
 /-- **provenance of `MsgHeartbeat`s** -/
-theorem hb_prov (H : Hyp2 cfg c0 h) : ∀ (n : Nat) (s : Sys), h[n]? = some s →
+theorem hb_prov (H : Hyp2w cfg c0 h) : ∀ (n : Nat) (s : Sys), h[n]? = some s →
     (∀ i st, s.node i = some st → ∀ x ∈ st.raft.msgs, x.msgType = .msgHeartbeat →
       Gen (HbGen h) n i x) ∧
     (∀ x ∈ s.net, x.msgType = .msgHeartbeat → ∃ i, Gen (HbGen h) n i x) := by
